@@ -257,6 +257,32 @@ func formatterProp(t *rapid.T, s *stats.Section) {
 				t.Fatalf("VIOLATION C14: an unrelated format entry was lost\ncase: %s", desc)
 			}
 		}
+		// the same event reaches a JSON formatter again after a node in between changed it: the line must follow
+		if out != nil && rapid.IntRange(0, 3).Draw(t, "secondPass") == 0 {
+			n2v := rapid.IntRange(0, 1000000).Draw(t, "secondPayload")
+			carrier.Payload = map[string]interface{}{"second_pass": n2v}
+			how := rapid.SampledFrom([]string{"same-node", "other-formatter", "after-overwriting-the-line"}).Draw(t, "secondHow")
+			var n2 eventlogger.Node = n
+			if how != "same-node" {
+				n2 = &eventlogger.JSONFormatter{}
+			}
+			if how == "after-overwriting-the-line" {
+				carrier.FormattedAs(eventlogger.JSONFormat, []byte("overwritten by a node in between\n"))
+			}
+			out2, err2 := n2.Process(context.Background(), carrier)
+			if err2 == nil && out2 != nil {
+				line2, ok2 := out2.Format(eventlogger.JSONFormat)
+				var m2 map[string]json.RawMessage
+				want2 := fmt.Sprintf(`{"second_pass":%d}`, n2v)
+				if !ok2 || json.Unmarshal(line2, &m2) != nil {
+					t.Fatalf("VIOLATION C14: second pass (%s) stored no valid line: %q\ncase: %s", how, line2, desc)
+				}
+				if eq, _ := jsonEqual(m2["payload"], []byte(want2)); !eq {
+					t.Fatalf("VIOLATION C14: the event was formatted again (%s) after its payload changed to %s, but the stored line still carries payload %s\ncase: %s", how, want2, m2["payload"], desc)
+				}
+				carrier = out2
+			}
+		}
 		if msg := rememberAndRecheck(carrier, desc); msg != "" {
 			t.Fatalf("VIOLATION C14: %s\ncase: %s", msg, desc)
 		}
